@@ -1,4 +1,5 @@
 import FsutilModel.Model.CopyB
+import FsutilModel.Lemmas.C15
 /-! # C15 — overlay semantics and idempotence (abstract tree maps) -/
 namespace Fsm.C15
 
@@ -78,5 +79,81 @@ theorem upsert_idem (t : List C.Node) (n : C.Node) : (C.upsert (C.upsert t n) n)
     funext x
     simp only [Function.comp]
     by_cases hx : x.path = n.path <;> simp [hx]
+
+/-! ## Hard-link sources of the copier (F29)
+
+The copier records, per source inode, the destination path of the first member of a hard-link group
+(`St.inodes`) and links later members to that path. `C15L.Inv src s`: nodes with equal paths carry
+equal content, and every recorded source is a node of the working tree that carries the content of
+(an entry with) that inode. -/
+
+/-- **The recorded link sources stay valid along every sequence of copied entries**, whatever the options,
+patterns and collisions between sources: every state reached from a state satisfying the invariant
+satisfies it (the repaired `dropTarget` forgets the sources recorded at a path that is replaced). -/
+theorem link_sources_stay_valid (src : List Snap) (a : C.Args) (srcSub : List Snap) (srcRel dstFinal : Path) :
+    ∀ (es : List Snap) (s s' : C.St), (∀ e ∈ es, e ∈ src) → C15L.Inv src s →
+      es.foldlM (C.copyEntry a srcSub srcRel dstFinal) s = .ok s' → C15L.Inv src s' := by
+  intro es
+  induction es with
+  | nil => intro s s' _ h hs; simp [List.foldlM, pure, Except.pure] at hs; cases hs; exact h
+  | cons e rest ih =>
+    intro s s' hsub h hs
+    rw [List.foldlM_cons] at hs
+    cases hstep : C.copyEntry a srcSub srcRel dstFinal s e with
+    | error w => rw [hstep] at hs; simp [bind, Except.bind] at hs
+    | ok s1 =>
+      rw [hstep] at hs
+      simp only [bind, Except.bind] at hs
+      exact ih s1 s' (fun x hx => hsub x (List.mem_cons_of_mem _ hx))
+        (C15L.inv_copyEntry src a srcSub srcRel dstFinal s s1 e (hsub e (List.mem_cons_self ..)) h hstep) hs
+
+/-- the invariant holds initially (nothing recorded yet) for every destination whose paths determine the content -/
+theorem link_sources_initially (src : List Snap) (t : List C.Node) (h : C15L.PathDet t) : C15L.Inv src { tree := t } :=
+  ⟨h, by intro ip hip; cases hip⟩
+
+/-- **A hard link never joins different contents**: in a state satisfying the invariant, the link source the copier
+has recorded for an entry's inode is a node carrying that entry's content (source entries with one inode have one
+content). This is what failed before F29 was repaired. -/
+theorem link_joins_same_content (src : List Snap) (s : C.St) (e : Snap) (l : Path)
+    (hsrc : ∀ x ∈ src, ∀ y ∈ src, x.ino = y.ino → x.sha = y.sha) (he : e ∈ src) (h : C15L.Inv src s)
+    (hl : C.leaderOf e s = some l) : ∃ n ∈ s.tree, n.path = l ∧ n.sha = e.sha := by
+  unfold C.leaderOf at hl
+  split at hl
+  · cases hf : s.inodes.find? (·.1 = e.ino) with
+    | none => rw [hf] at hl; cases hl
+    | some ip =>
+      rw [hf] at hl
+      simp only [Option.map_some, Option.some.injEq] at hl
+      have hmem := List.mem_of_find?_eq_some hf
+      have hino : ip.1 = e.ino := by simpa using List.find?_some hf
+      obtain ⟨n, hn, hnp, e', he', hei, hsha⟩ := h.2 ip hmem
+      exact ⟨n, hn, by rw [hnp, hl], by rw [hsha]; exact hsrc e' he' e he (by rw [hei, hino])⟩
+  · cases hl
+
+/-- witness for the unrepaired `dropTarget`: after the path of a recorded source has been replaced, the record still
+names it — the next member of that group would be linked to whatever stands there now -/
+theorem unrepaired_link_source_goes_stale :
+    let f : C.Node := { path := [102], st := { path := [102], mode := 420, uid := 0, gid := 0, size := 1, mtime := 0, linkname := [],
+                                                 devmajor := 0, devminor := 0 }, sha := [1], mtime := none }
+    let s : C.St := { tree := [f], inodes := [(7, [102])] }
+    (C.dropTargetG false s [102]).inodes = [(7, [102])] ∧ (C.dropTargetG false s [102]).tree = [] ∧
+    (C.dropTargetG true s [102]).inodes = [] := by
+  refine ⟨rfl, ?_, ?_⟩ <;> simp [C.dropTargetG, C.removeSub]
+
+/-- the invariant is satisfiable with a recorded source (the statements above are not vacuous) -/
+example :
+    let e : Snap := { st := { path := [102], mode := 420, uid := 0, gid := 0, size := 1, mtime := 0, linkname := [], devmajor := 0, devminor := 0 },
+                      ino := 7, nlink := 2, sha := [1] }
+    let f : C.Node := { path := [111, 47, 102], st := e.st, sha := [1], mtime := none }
+    C15L.Inv [e] { tree := [f], inodes := [(7, [111, 47, 102])] } := by
+  intro e f
+  refine ⟨?_, ?_⟩
+  · intro x hx y hy _
+    simp only [List.mem_singleton] at hx hy
+    rw [hx, hy]
+  · intro ip hip
+    simp only [List.mem_singleton] at hip
+    subst hip
+    exact ⟨f, by simp, rfl, e, by simp, rfl, rfl⟩
 
 end Fsm.C15
